@@ -88,7 +88,10 @@ def main():
         gocmd = cmd
         if "-count" not in gocmd:
             gocmd = gocmd.replace("go test", "go test -count=1", 1)
-        rc, out = sh(gocmd, os.path.join(wt, "dnsrocks"), timeout=1200, env=env)
+        demo_cwd = os.path.join(wt, "dnsrocks")
+        if dests[0].startswith("dnsrocks/go-cdb-mods/") and "./" not in gocmd.replace(" .", " "):
+            demo_cwd = os.path.join(wt, "dnsrocks", "go-cdb-mods")
+        rc, out = sh(gocmd, demo_cwd, timeout=1200, env=env)
         res["demo_passes_without_patch"] = rc == 0
         res["demo_without_tail"] = out[-600:]
         # apply patch
@@ -99,7 +102,7 @@ def main():
             return finish(seed, res, wt, tmp)
         rc, out = sh("go build ./... 2>&1 | grep -v 'invalid reference to syscall.recvmsg' | grep -v '^# ' ; go vet -tags verif ./db/ ./dnsserver/ ./dnsdata/... 2>&1 | tail -5", os.path.join(wt, "dnsrocks"), env=env)
         res["build_output"] = out[-800:]
-        rc, out = sh(gocmd, os.path.join(wt, "dnsrocks"), timeout=1200, env=env)
+        rc, out = sh(gocmd, demo_cwd, timeout=1200, env=env)
         res["demo_fails_with_patch"] = rc != 0
         res["demo_with_tail"] = out[-1200:]
         for f in placed:
